@@ -26,11 +26,11 @@ def ascii_ok(x):
 def run(chk):
     targets = ["theories/Corr/C03.vo", "theories/Corr/C01.vo", "theories/Props/C03.vo"]
     if c03doc is not None:
-        targets += ["theories/Corr/C03doc.vo", "theories/Props/C03doc.vo"]
+        targets += list(getattr(c03doc, "BUILD_TARGETS", ["theories/Corr/C03doc.vo", "theories/Props/C03doc.vo"]))
     chk.build(targets)
     chk.props("theories/Props/C03.v", THEOREMS)
     if c03doc is not None:
-        chk.props("theories/Props/C03doc.v", c03doc.THEOREMS)
+        chk.props(getattr(c03doc, "PROPS_FILE", "theories/Props/C03doc.v"), c03doc.THEOREMS)
     rng = chk.rng
     quick = chk.tier == "quick"
     work = tempfile.mkdtemp(prefix="verif_c03_")
@@ -89,6 +89,8 @@ def run(chk):
 
 
 def replay(chk, rep):
+    if c03doc is not None and rep.get("part") in ("admon", "meta", "e2e"):
+        return c03doc.replay(chk, rep)
     if "lines" in rep:
         print(run_reader(rep["lines"], tuple(rep.get("marks", ("!", ">", "*", "|")))))
     elif "text" in rep:
@@ -102,9 +104,10 @@ def finish(chk):
         level_note="Coq theorems about the reader model (documentation markers) and the structural parser model "
                    "(attachment), plus the documentation-text models; tied to the code by differential runs",
         trusted_base=["Coq 8.16.1 kernel (+ vm_compute)", "models Lex/Reader.v, Sem/Tree.v, Doc/*.v",
-                      "harness generators/adapters", "7-bit ASCII"],
+                      "harness generators/adapters", "7-bit ASCII"] + list(getattr(c03doc, "TRUSTED_BASE", [])),
         rule="documented statement sequences in the four marker styles with alternative marker characters, blank and "
              "ordinary comment lines in between; generated files with per-entity documentation in all styles; "
              "documentation bodies with note boxes / lists / code / metadata (see c03doc)",
         checker_cmd="make theories/Props/C03.vo theories/Props/C03doc.vo && coqc (Print Assumptions)",
-        assumptions=["python-markdown's block parsing is outside the models (end-to-end word search only)"])
+        assumptions=["python-markdown's block parsing is outside the models (end-to-end word search only)"]
+        + list(getattr(c03doc, "ASSUMPTIONS", [])))
